@@ -54,10 +54,11 @@ type State struct {
 	PanicOK  bool  // panics are not violations for this harness
 	Depth    int
 	InitFailed map[*ssa.Package]string
+	Lenient  int // lenient modelling choices taken on this path
 }
 
 func (s *State) clone() *State {
-	n := &State{Objs: make(map[int]Value, len(s.Objs)), NextO: s.NextO, Unwind: s.Unwind, Alloc: s.Alloc, PanicOK: s.PanicOK, Branches: s.Branches}
+	n := &State{Objs: make(map[int]Value, len(s.Objs)), NextO: s.NextO, Unwind: s.Unwind, Alloc: s.Alloc, PanicOK: s.PanicOK, Branches: s.Branches, Lenient: s.Lenient}
 	for k, v := range s.Objs {
 		n.Objs[k] = v
 	}
@@ -113,6 +114,25 @@ type Finding struct {
 	Model    *ModelOut
 	Trace    []string
 	Replayed string // "", "reproduced", "not-reproduced", "replay-error: ..."
+	Lenient  int       // number of lenient modelling choices on the path (decode of an arbitrary string succeeds, ...)
+	Alts     []Finding // further counterexamples for the same site from other paths (tried in replay if this one does not reproduce)
+}
+
+const maxAlts = 5
+
+// addFinding records a counterexample; several per site are kept so that replay can fall back to
+// one that does not depend on lenient modelling choices the native run cannot reproduce.
+func addFinding(list []Finding, f Finding) []Finding {
+	for i := range list {
+		g := &list[i]
+		if g.Kind == f.Kind && g.Where == f.Where {
+			if len(g.Alts) < maxAlts {
+				g.Alts = append(g.Alts, f)
+			}
+			return list
+		}
+	}
+	return append(list, f)
 }
 
 type ModelOut struct {
@@ -120,6 +140,9 @@ type ModelOut struct {
 	Bytes map[string]string            `json:"bytes"` // name#k -> hex string of bytes
 	UF    map[string]map[string]string `json:"uf"`    // fn -> argkey -> value
 	Order []string                     `json:"order,omitempty"`
+	// concrete strings the code compares atoms with: atom value (hex) -> string, so that the
+	// native runtime can hand out that very string when the model makes an atom equal to it
+	Interned map[string]string `json:"interned,omitempty"`
 }
 
 type Engine struct {
@@ -404,12 +427,7 @@ func (e *Engine) oblige(s *State, v *Term, kind, where string) bool {
 		return true
 	case "sat":
 		e.Sat++
-		for _, f := range e.Findings {
-			if f.Kind == kind && f.Where == where {
-				return false
-			}
-		}
-		e.Findings = append(e.Findings, Finding{Kind: kind, Where: where, Harness: e.Harness, Model: e.buildModel(s, vals), Trace: append([]string(nil), s.Trace...)})
+		e.Findings = addFinding(e.Findings, Finding{Kind: kind, Where: where, Harness: e.Harness, Model: e.buildModel(s, vals), Trace: append([]string(nil), s.Trace...), Lenient: s.Lenient})
 		return false
 	default:
 		e.Incon = append(e.Incon, kind+"@"+where+": "+r)
@@ -418,7 +436,12 @@ func (e *Engine) oblige(s *State, v *Term, kind, where string) bool {
 }
 
 func (e *Engine) buildModel(s *State, vals []*big.Int) *ModelOut {
-	m := &ModelOut{Vars: map[string]string{}, Bytes: map[string]string{}, UF: map[string]map[string]string{}}
+	m := &ModelOut{Vars: map[string]string{}, Bytes: map[string]string{}, UF: map[string]map[string]string{}, Interned: map[string]string{}}
+	internMu.Lock()
+	for k, v := range internRev {
+		m.Interned[k] = v
+	}
+	internMu.Unlock()
 	if vals == nil {
 		return m
 	}
@@ -545,14 +568,11 @@ func (e *Engine) merge(h *Engine) {
 	e.Sat += h.Sat
 	e.Assumes += h.Assumes
 	for _, f := range h.Findings {
-		dup := false
-		for _, g := range e.Findings {
-			if g.Kind == f.Kind && g.Where == f.Where {
-				dup = true
-			}
-		}
-		if !dup {
-			e.Findings = append(e.Findings, f)
+		alts := f.Alts
+		f.Alts = nil
+		e.Findings = addFinding(e.Findings, f)
+		for _, a := range alts {
+			e.Findings = addFinding(e.Findings, a)
 		}
 	}
 	e.Incon = append(e.Incon, h.Incon...)
